@@ -240,6 +240,8 @@ include!(concat!(env!("HASHBROWN_VERIF_DIR"), "/tableh.rs"));
 include!(concat!(env!("HASHBROWN_VERIF_DIR"), "/iterh.rs"));
 #[cfg(not(kani))]
 include!(concat!(env!("HASHBROWN_VERIF_DIR"), "/lifeh.rs"));
+#[cfg(not(kani))]
+include!(concat!(env!("HASHBROWN_VERIF_DIR"), "/panich.rs"));
 
 /// Declares obligations: each `h_*<S: Src>(&mut S) -> Chk` in `kani { }` becomes a Kani proof
 /// harness `raw::verif::k::h_*`; those and the ones in `native { }` (compiled only outside Kani)
@@ -280,10 +282,14 @@ macro_rules! harnesses {
             let mut done = 0u64;
             let mut skipped = 0u64;
             let mut it = 0u64;
+            std::panic::set_hook(std::boxed::Box::new(|_| {}));
             while it < iters {
                 let sd = seed.wrapping_mul(0x9E37_79B9_7F4A_7C15).wrapping_add(it.wrapping_mul(0xD1B5_4A32_D192_ED03)) | 1;
                 let mut s = Rand::new(sd);
-                let r = dispatch(name, &mut s)?;
+                let r = match std::panic::catch_unwind(std::panic::AssertUnwindSafe(|| dispatch(name, &mut s))) {
+                    Ok(r) => r?,
+                    Err(_) => Err("a panic escaped from the code under test (debug assertion, overflow check or unexpected panic)"),
+                };
                 if s.assume_failed { skipped += 1; } else { done += 1; }
                 if let Err(m) = r {
                     return Some((done, skipped, Some((it, sd, m))));
